@@ -376,7 +376,14 @@ def rcfg_config_verbatim(ctx):
     config_field_integrity(ctx, "C06.CFG", "max_subscriptions_per_connection")
 
 
-RULES = [r1_permit_before_handler, r2_permit_flow, r3_unsubscribe_answer, r4_release_on_last_drop, r5_unsubscribe_needs_no_permit, r6_cap_provenance, r7_table_writers, r8_no_relock, r9_connection_ids_are_fresh, r10_ids_spelled_alike, rcfg_config_verbatim]
+
+def rids_wire_ids_derive_both(ctx):
+    """ids are serialised and parsed by mirror-image (derived) impls"""
+    from .common import wire_ids_derive_both
+    wire_ids_derive_both(ctx, "C06.IDS")
+
+
+RULES = [r1_permit_before_handler, r2_permit_flow, r3_unsubscribe_answer, r4_release_on_last_drop, r5_unsubscribe_needs_no_permit, r6_cap_provenance, r7_table_writers, r8_no_relock, r9_connection_ids_are_fresh, r10_ids_spelled_alike, rcfg_config_verbatim, rids_wire_ids_derive_both]
 
 LEVEL_TEXT = (
     "Structural necessary conditions of subscription bookkeeping decided from the type-checked program: acquire dominates "
